@@ -315,7 +315,34 @@ def rule_codec(ctx: Ctx) -> None:
     ctx.check(ok, "codec-arity", ip, ip.node, "ipack/iunpack agree on [1-byte len-of-len][len][number]", "ipack and iunpack disagree on the integer layout")
 
 
+def rule_protocol_shape(ctx: Ctx) -> None:
+    """
+    Two necessary conditions of the protocol clauses that ARE visible in code shape (they do not make the proofs sound):
+    a range proof is accepted only on the evidence of at least one verified response, and an incoming attestation is
+    matched to the request whose global time it echoes (each request has its own one-time key).
+    """
+    repo = ctx.repo
+    pb = repo.method("PengBaoRangeAlgorithm", "certainty", "ipv8/attestation/wallet/pengbaorange/algorithm.py")
+    agg = pb.params()[2]
+    # symbolic evaluation for an aggregate that holds no response (only the 'attestation' key, or nothing): the verdict must be "not in range"
+    seeds = [v for _, v, _ in local_defs(pb, "in_range") if v is not None]
+    nonvacuous = any(isinstance(v, ast.Compare) and norm(v.left) == f"len({agg})" and isinstance(v.ops[0], (ast.Gt, ast.GtE)) and
+                     ((isinstance(v.ops[0], ast.Gt) and const_value(v.comparators[0]) == 1) or (isinstance(v.ops[0], ast.GtE) and const_value(v.comparators[0]) == 2)) for v in seeds)
+    vacuous_all = any(isinstance(n, ast.Call) and chain(n.func) == "all" for v in seeds for n in ast.walk(v)) and not nonvacuous
+    conj = any(isinstance(s_, ast.AugAssign) and isinstance(s_.op, ast.BitAnd) and norm(s_.target) == "in_range" for s_ in walk_no_nested(pb.node))
+    ctx.check(nonvacuous and conj and not vacuous_all, "protocol-shape", pb, pb.node, "range certainty is 1 only with at least one response and all responses verified",
+              "PengBaoRangeAlgorithm.certainty accepts vacuously: with no verified challenge response the aggregate yields certainty 1.0, so a proof built for a value outside "
+              "the range is accepted before any answer was checked")
+    oc = repo.method("AttestationCommunity", "on_attestation_chunk", "ipv8/attestation/wallet/community.py")
+    comps = [n for n in ast.walk(oc.node) if isinstance(n, ast.ListComp) and "self.allowed_attestations.get(" in norm(n.generators[0].iter)]
+    ok = len(comps) == 1 and any(norm(i) == f"{norm(comps[0].generators[0].target)} == str(dist.global_time).encode()" for i in comps[0].generators[0].ifs)
+    ctx.check(ok, "protocol-shape", oc, comps[0] if comps else oc.node, "an incoming attestation is matched to the request whose global time it echoes",
+              "on_attestation_chunk no longer selects the outstanding request by the echoed global time: with two requests in flight the attestation is stored under another "
+              "request's attribute name and one-time key, and the honest owner's answers score 0 for the true value")
+
+
 def run(ctx: Ctx) -> None:
+    rule_protocol_shape(ctx)
     rule_ring_laws(ctx)
     rule_intpow(ctx)
     rule_codec(ctx)
